@@ -13,10 +13,16 @@ from harness.cones import EXACT_CONES, real_order
 TITLE = "Pareto-set extraction vs Lean model"
 RULE = ("cases: (cone with integer rows, list of dyadic-lattice vectors); shapes: exhaustive small "
         "lattices (thorough), random with duplicates, chains, antichains, facet ties; cone matrix stored as float, "
-        "int64, int32 or nested int list (integer dtypes with quarter-lattice fractional data); non-trivial = at "
+        "int64, int32 or nested int list (integer dtypes with quarter-lattice fractional data); 'ulp' family (differences "
+        "2^-40…2^-50 around ties; integer-row cones scaled by 2^±40); bundled float cones (ConeOrder3D, ConeTheta2D, "
+        "ice-cream) on {0..3}^m lattices incl. all pairs of {0..3}^3 — compared only where the float path is proved to "
+        "take the exact decisions (all summation orders / FMA replayed in Fractions); non-trivial = at "
         "least one point is eliminated and at least two kept values or a duplicate value present; "
         "distinct by (cone, vectors)")
-ASSUMPTIONS = ["inputs are dyadic-lattice vectors and integer cone rows so the float path is exact"]
+ASSUMPTIONS = ["inputs are dyadic-lattice vectors and integer cone rows so the float path is exact",
+               "float cone rows / sub-ulp data: a case is compared only if a - b is exact and every facet test "
+               "fl((a-b)·w_n) >= 0 is determined (robust margin, or every evaluation order with and without FMA gives "
+               "the exact decision); otherwise it is counted as float_path_inexact_skipped_info"]
 
 
 _int_cache = {}
@@ -47,9 +53,171 @@ def _order_for(W, wtype):
     return _int_cache[key]
 
 
+# ----------------------------------------------------------------------------- float-path exactness
+from fractions import Fraction  # noqa: E402
+
+_EPS = Fraction(1, 2 ** 53)
+_row_cache = {}
+
+
+def _fl(fr):
+    """correctly rounded double of an exact rational, as a Fraction"""
+    return Fraction(float(fr))
+
+
+def _row_decision_determined(d, w, wkey, n):
+    """Is the code's test `fl((a-b)·w_n) >= 0` guaranteed to equal the exact test `(a-b)·w_n >= 0`,
+    whatever order / FMA usage the matrix product uses?  `d`, `w` exact Fractions of the floats.
+    Robust case: |exact| exceeds the worst-case rounding error.  Otherwise (ties and near-ties) every
+    evaluation strategy (all summation orders of the non-zero products, with separately rounded
+    products and with fused multiply-add, plus pairwise trees) is replayed exactly in Fractions and
+    all of them must give the exact decision."""
+    key = (wkey, n, tuple(d))
+    r = _row_cache.get(key)
+    if r is not None:
+        return r
+    prods = [x * y for x, y in zip(d, w) if x != 0 and y != 0]
+    exact = sum(prods, Fraction(0))
+    want = exact >= 0
+    bound = (len(prods) + 2) * _EPS * sum((abs(t) for t in prods), Fraction(0))
+    if abs(exact) > bound or not prods:
+        ok = True
+    else:
+        ok = True
+        rp = [_fl(t) for t in prods]
+        idxs = range(len(prods))
+        for perm in itertools.permutations(idxs):
+            acc = rp[perm[0]]
+            accf = rp[perm[0]]
+            for k in perm[1:]:
+                acc = _fl(acc + rp[k])        # products rounded separately
+                accf = _fl(accf + prods[k])   # fused multiply-add
+            if (acc >= 0) != want or (accf >= 0) != want:
+                ok = False
+                break
+            if len(perm) == 4:
+                t = _fl(_fl(rp[perm[0]] + rp[perm[1]]) + _fl(rp[perm[2]] + rp[perm[3]]))
+                if (t >= 0) != want:
+                    ok = False
+                    break
+    if len(_row_cache) < 400000:
+        _row_cache[key] = ok
+    return ok
+
+
+def _float_path_exact(Wf, Wq, X):
+    """True iff for every ordered pair (a, b) of rows of X the float difference a-b is exact and every
+    facet test of `is_inside(a-b)` is determined (see `_row_decision_determined`)."""
+    wkey = tuple(tuple(r) for r in Wf)
+    Xq = [[Fraction(float(t)) for t in x] for x in X]
+    for i, a in enumerate(X):
+        for j, b in enumerate(X):
+            if i == j:
+                continue
+            df = [float(x) - float(y) for x, y in zip(a, b)]
+            dq = [x - y for x, y in zip(Xq[i], Xq[j])]
+            if any(Fraction(t) != u for t, u in zip(df, dq)):
+                return False
+            for n, w in enumerate(Wq):
+                if not _row_decision_determined(dq, w, wkey, n):
+                    return False
+    return True
+
+
+_bundled_cache = {}
+
+
+def _bundled_order(spec):
+    """real bundled order objects (real constructors), cached: ["cone3d", kind] | ["theta", deg] | ["ice", deg, K]"""
+    key = tuple(spec)
+    if key not in _bundled_cache:
+        from vopy.order import ConeOrder3D, ConeOrder3DIceCream, ConeTheta2DOrder
+
+        if spec[0] == "cone3d":
+            o = ConeOrder3D(spec[1])
+        elif spec[0] == "theta":
+            o = ConeTheta2DOrder(spec[1])
+        elif spec[0] == "ice":
+            o = ConeOrder3DIceCream(spec[1], spec[2])
+        else:
+            raise ValueError(spec)
+        _bundled_cache[key] = o
+    return _bundled_cache[key]
+
+
+_w_cache = {}
+
+
+def _order_from_rows(Wf):
+    from vopy.order import PolyhedralConeOrder
+    from vopy.ordering_cone import OrderingCone
+
+    key = tuple(tuple(r) for r in Wf)
+    if key not in _w_cache:
+        _w_cache[key] = PolyhedralConeOrder(OrderingCone(np.array(Wf, dtype=float)))
+    return _w_cache[key]
+
+
+BUNDLED_2D = [["theta", 45], ["theta", 60], ["theta", 90], ["theta", 120], ["theta", 135]]
+BUNDLED_3D = [["cone3d", "acute"], ["cone3d", "obtuse"], ["ice", 45.0, 4], ["ice", 30.0, 6], ["ice", 60.0, 8]]
+
+
+def _gen_ulp(rng):
+    """tiny exactly-representable differences 2^-40 … 2^-50 around ties, and integer-row cones scaled by
+    2^-40 / 2^40 (exact in binary; the relation is unchanged)"""
+    cname = rng.choice(["orthant2", "orthant2", "orthant3", "acute2", "obtuse2", "threefacet2", "redundant2", "pyramid3"])
+    W, pointed = EXACT_CONES[cname]
+    m = len(W[0])
+    sc = rng.choice([1.0, 1.0, 2.0 ** -40, 2.0 ** -40, 2.0 ** 40])
+    Wf = [[float(t) * sc for t in r] for r in W]
+    n = rng.randint(2, 6)
+    sub = rng.choice(["tie-perturbed", "tie-perturbed", "integers", "mixed"])
+    if sc != 1.0 and rng.random() < 0.6:
+        sub = "integers"
+    if sub == "integers":
+        X = [[float(rng.randint(0, 3)) for _ in range(m)] for _ in range(n)]
+    else:
+        base = [float(rng.randint(-2, 2)) for _ in range(m)]
+        X = []
+        for _ in range(n):
+            dlt = 2.0 ** -rng.randint(40, 50)
+            X.append([b + rng.choice([-1, 0, 0, 1]) * dlt for b in base])
+        if sub == "mixed":
+            X[rng.randrange(n)] = [b + rng.choice([-1, 0, 1]) for b in base]
+    return {"kind": "wsets", "W": Wf, "pointed": pointed, "X": X, "shape": "ulp-" + sub, "eqv_is_equality": sub == "integers",
+            "cone": cname + ("" if sc == 1.0 else ("*2^-40" if sc < 1 else "*2^40"))}
+
+
+def gen_round3(ctx):
+    rng = ctx.rng
+    k = 0
+    # ---- (a) ulp family
+    for _ in range(ctx.n(250, 12000)):
+        yield _gen_ulp(rng)
+    # ---- (b) bundled float cones on small integer lattices
+    pts3 = [list(map(float, p)) for p in itertools.product(range(4), repeat=3)]
+    # all unordered pairs of {0..3}^3 for the acute 3-D cone (its float matrix is exactly s·Z, Z integer, so facet
+    # ties occur and the float path is still determined); thorough: also obtuse and the ice-cream cones
+    specs = [["cone3d", "acute"]] if ctx.tier == "quick" else BUNDLED_3D
+    for spec in specs:
+        for i in range(len(pts3)):
+            for j in range(i + 1, len(pts3)):
+                k += 1
+                if k % ctx.nworkers != ctx.worker:
+                    continue
+                yield {"kind": "bundled", "order": spec, "X": [pts3[i], pts3[j]], "shape": "lattice-pair"}
+    for _ in range(ctx.n(300, 30000)):
+        spec = rng.choice(BUNDLED_3D + BUNDLED_2D)
+        m = 2 if spec[0] == "theta" else 3
+        n = rng.choice([3, 3, 3, 4, 5, 6])
+        X = [[float(rng.randint(0, 3)) for _ in range(m)] for _ in range(n)]
+        yield {"kind": "bundled", "order": spec, "X": X, "shape": "lattice-triple" if n == 3 else "lattice-set"}
+
+
 def gen(ctx):
     rng = ctx.rng
     cones = list(EXACT_CONES)
+    yield from gen_round3(ctx)
     # integer-dtype cone matrices with fractional (quarter-lattice) data: a - b must not be truncated
     for _ in range(ctx.n(150, 9000)):
         cname = rng.choice(cones)
@@ -127,19 +295,44 @@ def gen(ctx):
 
 
 def run_case(ctx, case):
-    W, pointed = EXACT_CONES[case["cone"]]
     X = np.array(case["X"], dtype=float)
     wtype = case.get("wtype", "float")
+    kind = case.get("kind", "sets")
+    eqv_is_equality = True
     try:
-        order = _order_for(W, wtype)
+        if kind == "sets":
+            W, pointed = EXACT_CONES[case["cone"]]
+            order = _order_for(W, wtype)
+            cname = case["cone"]
+        elif kind == "wsets":
+            W, pointed = case["W"], bool(case["pointed"])
+            order = _order_from_rows(W)
+            cname = case.get("cone", "explicit")
+            eqv_is_equality = bool(case.get("eqv_is_equality", False))
+        elif kind == "bundled":
+            order = _bundled_order(case["order"])
+            W, pointed = [[float(t) for t in r] for r in order.ordering_cone.W], True
+            cname = "-".join(str(t) for t in case["order"])
+        else:
+            raise ValueError(kind)
     except Exception as e:
         ctx.violation("cone-construction-crash:" + core.exc_key(e),
-                      f"OrderingCone from a {wtype} matrix raised {type(e).__name__}: {e}", case)
+                      f"cone construction ({kind}, {wtype}) raised {type(e).__name__}: {e}", case)
         return
+    if kind != "sets":
+        # float cone rows / sub-ulp data: the model decides on the EXACT rational value of the exported floats;
+        # compare only where the code's float path provably takes the same decisions
+        Wq = [[Fraction(float(t)) for t in r] for r in W]
+        if not _float_path_exact(W, Wq, case["X"]):
+            ctx.count("float_path_inexact_skipped_info")
+            ctx.count("cone_" + cname)
+            ctx.case_done(case, False, canon=[cname, case["X"]])
+            return
+        ctx.count("float_path_exact")
     ws, xs = core.qmat(W), core.qmat(X)
     ctx.count("wtype_" + wtype)
     ctx.count("shape_" + case["shape"])
-    ctx.count("cone_" + case["cone"])
+    ctx.count("cone_" + cname)
     # ---- fast routine
     try:
         idx = [int(i) for i in order.get_pareto_set(X.copy())]
@@ -169,11 +362,11 @@ def run_case(ctx, case):
     if ctx.lean.ask(f"C13 nspec {ws} {xs} {core.nats(nidx)}") != "ok":
         ctx.violation("naive-spec", "get_pareto_set_naive: kept set is not {i | no different-valued element dominates i}",
                       case, detail={"impl": nidx})
-    if pointed and set(case["X"][i].__repr__() for i in nidx) != set(case["X"][i].__repr__() for i in idx):
+    if pointed and eqv_is_equality and set(case["X"][i].__repr__() for i in nidx) != set(case["X"][i].__repr__() for i in idx):
         # pointed cone: naive keeps all copies of exactly the values fast keeps
         ctx.violation("naive-vs-fast", "naive and fast routines keep different value sets", case,
                       detail={"fast": idx, "naive": nidx})
     n = len(case["X"])
     nontrivial = len(idx) < n and (len(idx) >= 2 or len(nidx) > len(idx))
     ctx.count("kept_%s" % ("all" if len(idx) == n else "some"))
-    ctx.case_done(case, nontrivial, canon=[case["cone"], case["X"]])
+    ctx.case_done(case, nontrivial, canon=[cname, case["X"]])
